@@ -144,6 +144,15 @@ def run(ctx):
                "createSchemaMatcher", EL, "extended matcher iff options")
     crosscheck(ctx, "C14.R7", EL + ".cook", REF, "cook", EL,
                "bag over the schema with all recorded options")
+    from rules.common import crosscheck_many
+    crosscheck_many(ctx, "C14.R7", [
+        (EL + ".__init__", "extloader_init", EL, "no options initially"),
+        (MM + ".set_optionbag", "set_optionbag", MM, "bag attached"),
+        (OB + ".keys", "optionbag_keys", OB, "pending keys"),
+        ("ZConfig.loader.ConfigLoader.createSchemaMatcher",
+         "configloader_createSchemaMatcher", "ZConfig.loader.ConfigLoader",
+         "plain matcher over the loader's schema"),
+    ])
     crosscheck(ctx, "C14.R7", MM + ".createChildMatcher", REF,
                "mixin_createChildMatcher", MM,
                "built from the base child matcher (name rules kept), same "
